@@ -102,3 +102,6 @@ def build(reg):
                                        "result == b'\\nsubjectAltName=DNS:' + utf8enc(alt_subj_names[0])")],
         raises={}, loops={0: LoopSpec(unroll=1)}))
     return T
+
+
+CROSSCHECK = ['get_ext_config']
